@@ -830,7 +830,9 @@ def transcripts(ctx, rep):
             x = strip(x[2][0])
         return x
 
-    if len(hs) == 2 and len(hn) == 1 and len(hg) == 1 and len(loops) == 1:
+    if len(hs) == 2 and len(hn) == 1 and len(hg) == 1 and len(loops) == 1 and not loops[0]["only_exit"]:
+        why = "the xor loop can be left before its last byte (break / return inside the loop)"
+    elif len(hs) == 2 and len(hn) == 1 and len(hg) == 1 and len(loops) == 1:
         lp = loops[0]
         t = strip(lp["init_call"][2][0]) if lp["init_call"] else None
         item = strip(lp["elem"])
@@ -880,12 +882,18 @@ def transcripts(ctx, rep):
             return None, None
 
         stores = []
+        sblocks = []
         for (bi, si), (loc, v) in se.assigns.items():
             if loc[0] == "index" and out_local is not None and loc[1] == out_local and strip(loc[2]) in comp and comp[strip(loc[2])][0] == "index":
                 stores.append(v)
+                sblocks.append(bi)
             elif loc[0] == "deref" and strip(loc[1]) in comp and (comp[strip(loc[1])] == ("elem", ("out",)) or len(comp[strip(loc[1])]) == 3):
                 stores.append(v)
-        if len(stores) == 1:
+                sblocks.append(bi)
+        idom_ = cfg.dominators(body)
+        if len(stores) == 1 and not all(cfg.dominates(idom_, sblocks[0], t_) for t_, h_ in cfg.back_edges(body) if h_ == lp["next_bb"]):
+            why = "the store of the output byte is skipped on some iterations (a condition / `continue` in front of it)"
+        elif len(stores) == 1:
             v = strip(stores[0])
             ops = None
             if v[0] == "binop" and v[1] == "BitXor":
